@@ -12,6 +12,8 @@ from .units import l3run
 from .units.d import UnitD
 from .units import d_replay
 from .units import m_replay
+from .units import f_replay
+from .units import s_replay
 from .units.f import UnitF
 from .units import r_replay
 
@@ -92,8 +94,30 @@ PROPS['C19'] = {
     'assumptions': ['yaserde/xml-rs stand-ins in contracts/dep_yaserde.rs', 'vstd model of Arc (transparent in specifications)'],
 }
 
+
+def c16_witness(pid, fails, repo):
+    res = s_replay.search(repo)
+    want = {'C16': None, 'C07': ('sent-before-check', 'restriction-error')}[pid] if pid in ('C16', 'C07') else None
+    an = [a for a in res['anomalies'] if want is None or a['aspect'] in want]
+    out = {'found': bool(an), 'scripted_exchanges_run_on_real_code': res['exchanges']}
+    if an:
+        out['input'] = an[0]
+        out['more'] = an[1:6]
+    if res.get('error'):
+        out['error'] = res['error'][-600:]
+    return out
+
+
+def c07_witness(pid, fails, repo):
+    if any(f.obligation.startswith('helpers::') for f in fails):
+        return c16_witness(pid, fails, repo)
+    if any(f.obligation.startswith('restrictions::') for f in fails):
+        return c06_witness(pid, fails, repo)
+    return l3_witness(pid, fails, repo)
+
+
 PROPS['C16'] = {
-    'units': [UnitS], 'level': 'proof', 'design_ref': 'DESIGN.md 4.16',
+    'units': [UnitS], 'level': 'proof', 'design_ref': 'DESIGN.md 4.16', 'witness': c16_witness,
     'scope': 'helpers::send_soap_request_using_client and helpers::send_soap_request (the code every generated client method '
              'calls), for all request/response types, urls, credentials, and every outcome of the exchange',
     'level_text': 'Deductive proof (Verus/Z3) over the real text of the two helper functions against contract-only reqwest/yaserde '
@@ -240,7 +264,7 @@ def l3_witness(pid, fails, repo):
 
 
 PROPS['C07']['extra'] = l3_extra
-PROPS['C07']['witness'] = l3_witness
+PROPS['C07']['witness'] = c07_witness
 PROPS['C07']['scope'] = ('(a) every emitted `impl restrictions::CheckRestrictions for X` of every corpus program returns Ok exactly when the value '
                          'satisfies the facets the schema declares for its type, at every depth and through Option/Vec (proof per program, all values); '
                          '(b) transmission half: a request that fails its check yields an error and no network-capable call is reachable before the check passed')
@@ -286,7 +310,8 @@ PROPS['C05'] = {
 def c10_witness(pid, fails, repo):
     res = d_replay.search(repo)
     merge_only = all('extend' in f.obligation for f in fails)
-    an = res['merge_anomalies'] if merge_only else (res['seq_anomalies'] or res['merge_anomalies'])
+    # anomalies of document merges are the known finding of `extend`; they are evidence only for failures of `extend` itself
+    an = res['merge_anomalies'] if merge_only else res['seq_anomalies']
     out = {'found': bool(an), 'operation_steps_run_on_real_code': res['steps_checked']}
     if an:
         out['input'] = an[0]
@@ -374,8 +399,23 @@ PROPS['C08'] = {
     'assumptions': ['independent schema reader implements XSD extension semantics (base content, then own content, then attributes in declaration order of each level)'],
 }
 
+
+def c09_witness(pid, fails, repo):
+    if any(f.obligation.startswith(('shape:', 'sig:', 'wire:', 'index:', 'order:', 'ns:')) for f in fails):
+        return l3_witness(pid, fails, repo)
+    res = f_replay.search(repo)
+    out = {'found': bool(res['anomalies']), 'prefix_lookups_run_on_real_code': res['lookups_checked']}
+    if res['anomalies']:
+        out['input'] = res['anomalies'][0]
+        out['more'] = res['anomalies'][1:5]
+        out['total'] = res['n']
+    if res.get('error'):
+        out['error'] = res['error'][-600:]
+    return out
+
+
 PROPS['C09'] = {
-    'units': [UnitF], 'level': 'proof', 'design_ref': 'DESIGN.md 4.9', 'extra': l3_extra, 'witness': l3_witness,
+    'units': [UnitF], 'level': 'proof', 'design_ref': 'DESIGN.md 4.9', 'extra': l3_extra, 'witness': c09_witness,
     'scope': '(L2, proof) field.rs split_type / resolve_type / as_rust_type and doc.rs find_namespace_by_abbreviation / '
              'find_module_name_from_namespace_reference: a QName is split at its first colon and its prefix is resolved through the document\'s '
              'prefix table only; (L3, per program) in corpus programs that reuse local names across namespaces, component kinds, files and '
